@@ -1,7 +1,34 @@
-/- placeholder driver for C05: replaced when the model is built -/
-import AcnModel.Wire
-open Lean Acn.Wire
+/-
+  Driver for C05: a whole-simulation scenario in (request format of `AcnModel/WireSim.lean`), out
+  the full observable trajectory of `Sim.run` (as `drv_C01`) PLUS
+    "views" : every view handed to the scheduler along the run (`Sim.runViews`), in call order,
+    "infra" : the static infrastructure description (`Sim.infra`).
+-/
+import AcnModel.WireSim
+import AcnModel.SchedView
+open Lean Acn Acn.Wire Acn.EventCore Acn.Sim
 
-def handle (_ : Json) : Except String Json := throw "driver for C05 not built yet"
+def jActive (e : Evse.Ev Float) : Json :=
+  Json.mkObj [("session", jS e.session), ("station", jS e.station), ("arrival", jI e.arrival),
+              ("departure", jI e.departure), ("est", jI e.estDeparture), ("requested", jF e.requested),
+              ("delivered", jF e.delivered), ("rate", jF e.rate)]
+
+def jView (v : View Float) : Json :=
+  Json.mkObj [("t", jN v.iter), ("active", jList jActive v.active),
+              ("last_pilots", jList (fun p => Json.arr #[jS p.1, jF p.2]) v.lastPilots),
+              ("peak", jF v.peak), ("evse_pilot", jFs v.evsePilot),
+              ("connected", jList (jOpt jS) v.connected)]
+
+def jStationInfo (i : StationInfo Float) : Json :=
+  Json.mkObj [("id", jS i.id), ("V", jF i.voltage), ("max", jF (fOfBound i.maxPilot)), ("min", jF i.minPilot),
+              ("continuous", jB i.continuous), ("allowable", jFs (i.allowable.map fOfBound))]
+
+def handle (j : Json) : Except String Json := do
+  let cfg ← parseSimCfg j
+  let sched ← parseSched (← j.getObjVal? "sched")
+  let fuel := fuelFor cfg.core
+  let r := Sim.run cfg sched fuel (Sim.init cfg)
+  let vs := Sim.runViews cfg sched fuel (Sim.init cfg)
+  pure (((jResult cfg r).setObjVal! "views" (jList jView vs)).setObjVal! "infra" (jList jStationInfo (infra cfg)))
 
 def main : IO Unit := runDriver handle
